@@ -6,8 +6,8 @@ import json
 import vlib, m3, irutil
 from batch import Batch, J, canon, split_answer
 
-PROOF_TARGETS = ["TypifyModel.Proofs.C11", "TypifyModel.Proofs.C11Natives", "TypifyModel.Proofs.C11Findings"]
-PROOF_FILES = ["Proofs/C11.lean", "Proofs/C11Natives.lean", "Proofs/C11Findings.lean", "Proofs/Lemmas/StrConvLemmas.lean"]
+PROOF_TARGETS = ["TypifyModel.Proofs.C11", "TypifyModel.Proofs.C11Natives", "TypifyModel.Proofs.C11Findings", "TypifyModel.Proofs.C11Templates"]
+PROOF_FILES = ["Proofs/C11.lean", "Proofs/C11Natives.lean", "Proofs/C11Findings.lean", "Proofs/Lemmas/StrConvLemmas.lean", "Proofs/C11Templates.lean"]
 DATETIME = "::chrono::DateTime<::chrono::offset::Utc>"
 
 def table_formats(): return [(f, p) for f, p, _ in vlib.string_formats_table()[0]]
